@@ -45,9 +45,15 @@ type reader struct {
 	s *bufio.Scanner
 }
 
+// Longest line the reader accepts. Long reads easily exceed the scanner's
+// default limit of 64 KiB.
+const maxLineLen = 1 << 30
+
 // Returns a new fastq reader that reads from r.
 func newReader(r io.Reader) *reader {
-	return &reader{s: bufio.NewScanner(r)}
+	s := bufio.NewScanner(r)
+	s.Buffer(nil, maxLineLen)
+	return &reader{s: s}
 }
 
 // Reads the next fastq entry from the reader.
